@@ -10,6 +10,8 @@ actions (JSON lists):
   ["job", c, j]             finish the j-th pending job of the c-th map_async node that has any
   ["adv", "next"|dt]        move the virtual clock to the next timer / by dt (multiple of 1/8 s)
   ["flush", node]           collect.flush()
+  ["turn", k]               run exactly k iterations of the event loop (no full drain)
+  any action + "!"          the next action follows before the loop runs anything
 """
 from hypothesis import strategies as st
 
@@ -38,10 +40,18 @@ def actions_strategy(draw, spec, max_actions=40, producers=True, timers=True, mi
         opts.append(st.tuples(st.just("adv"), st.integers(1, 16).map(lambda k: k * GRID)))
     if cols:
         opts.append(st.tuples(st.just("flush"), st.sampled_from(cols)))
+    if has_job or draw(st.integers(0, 3)) == 0:
+        opts.append(st.tuples(st.just("turn"), st.integers(1, 3)))
     # Hypothesis lists are short on average; force long schedules in a fixed share of cases
     lo = max(min_actions, min(max_actions, draw(st.sampled_from([1, 1, 6, 12, 20]))))
     acts = draw(st.lists(st.one_of(*opts), min_size=lo, max_size=max_actions))
-    return [list(a) for a in acts]
+    acts = [list(a) for a in acts]
+    # "!" = the next action follows before the loop gets to run anything (sub-drain
+    # interleavings: e.g. a job completes and a new element arrives within one loop turn)
+    if draw(st.booleans()):
+        marks = draw(st.lists(st.integers(0, 5), min_size=len(acts), max_size=len(acts)))
+        acts = [a + ["!"] if m == 0 and a[0] != "adv" else a for a, m in zip(acts, marks)]
+    return acts
 
 
 class Run:
@@ -136,6 +146,7 @@ def execute(case, consumer_modes=None, faults=None, md_plan=None, finish=True, h
         drain()
         for a in case["actions"]:
             op = a[0]
+            nodrain = a[-1] == "!"
             if op == "emit":
                 do_emit(a[1] % len(ents), a[2], "emit")
             elif op == "pemit":
@@ -155,12 +166,20 @@ def execute(case, consumer_modes=None, faults=None, md_plan=None, finish=True, h
                         loop.advance_to(nt)
                 else:
                     loop.advance(a[1])
+            elif op == "turn":
+                # run exactly a[1] iterations of the event loop (finer than a full drain)
+                for _ in range(a[1]):
+                    loop.call_soon(loop.stop)
+                    loop.run_forever()
+                continue
             elif op == "flush":
                 log.add("flush", a[1])
                 try:
                     b.nodes[a[1]].flush()
                 except Exception as e:  # injected fault reaching the caller of flush()
                     log.add("flushraise", a[1], type(e).__name__)
+            if nodrain:
+                continue
             drain()
             pump()
             run.qpoints.append(len(log.events))
